@@ -58,6 +58,8 @@ func c10(c *Ctx) {
 	r.Decides("every CPU id appended by the suppress policy is marked used in the same step and counted; no slice in cpusuppress/cpuset/helpers is created with a non-zero length and then filled by append only")
 	r.Declines("the numeric value of the budget, the exact number and distinctness of the chosen CPUs, the step limit arithmetic")
 
+	c10system(c)
+
 	// ---- DIV
 	r.Rule("DIV: every integer / and % in package cpusuppress (thorough: plus qosmanager/helpers and util/cpuset) has a divisor that is a non-zero constant or is dominated by a branch outcome implying non-zero for the same value / the same len(x)")
 	fns := c.PkgFuncs(suppressPkg)
